@@ -855,7 +855,12 @@ impl Callbacks for Dump {
                 DefKind::Struct | DefKind::Enum | DefKind::Union => {
                     let def = tcx.adt_def(did);
                     let mut variants: Vec<String> = Vec::new();
-                    for v in def.variants() {
+                    let discrs: Vec<String> = if def.is_enum() {
+                        def.discriminants(tcx).map(|(_, d)| d.val.to_string()).collect()
+                    } else {
+                        Vec::new()
+                    };
+                    for (vi, v) in def.variants().iter().enumerate() {
                         let mut fields: Vec<String> = Vec::new();
                         for f in &v.fields {
                             let fty = tcx.type_of(f.did).instantiate_identity().skip_norm_wip();
@@ -867,6 +872,7 @@ impl Callbacks for Dump {
                         }
                         variants.push(jobj(&[
                             ("name", jstr(&v.name.to_string())),
+                            ("discr", discrs.get(vi).cloned().unwrap_or_else(|| "null".into())),
                             ("fields", jarr(&fields)),
                         ]));
                     }
